@@ -584,6 +584,8 @@ def mon_msg(ctx, conn):
         m = re.match(r"#msg (\d+) hs=(\S+) body=(\d+) trailers=(\S+)", c)
         if m:
             want[int(m.group(1))] = (kvlist(m.group(2)), kvlist(m.group(4)), int(m.group(3)))
+    indexed = any(c == "#enc indexed" for _, c in conn.comments)
+    first_bad = min([sid for sid, (hs, tr, n) in want.items() if not wf_request(hs, tr, n)] or [1 << 40])
     dispatched, refused, torn_at = set(), {}, None
     for op, out in conn.steps:
         for name, args in parse_out(out):
@@ -594,19 +596,19 @@ def mon_msg(ctx, conn):
                 refused[sid] = code
             elif name in ("GA", "returned") and torn_at is None:
                 torn_at = (name, args)
+    # F23: once a malformed block was abandoned part way, requests that index into the dynamic table are out of step
+    def f23(sid):
+        return "block-abandoned-at-malformed-field" if indexed and sid > first_bad else None
     if torn_at is not None:
-        cls = None
-        viol(ctx, conn, "malformed-request-tore-down-connection", dict(item=torn_at), known_class="block-abandoned-at-malformed-field")
+        viol(ctx, conn, "malformed-request-tore-down-connection", dict(item=torn_at),
+             known_class="block-abandoned-at-malformed-field" if indexed else None)
         return
     for sid, (hs, tr, n) in want.items():
         ok = wf_request(hs, tr, n)
         if ok and sid not in dispatched:
-            viol(ctx, conn, "well-formed-request-refused", dict(sid=sid, hs=[(k.decode("latin1"), v.decode("latin1")) for k, v in hs]))
+            viol(ctx, conn, "well-formed-request-refused", dict(sid=sid, hs=[(k.decode("latin1"), v.decode("latin1")) for k, v in hs]), known_class=f23(sid))
         if not ok and sid in dispatched:
-            cls = None
-            cl = [v for k, v in hs if k == b"content-length"]
-            if cl and any((not v) or any(c < 48 or c > 57 for c in v) or len(v) > 18 for v in cl):
-                cls = "content-length-not-a-number"
+            cls = f23(sid)
             viol(ctx, conn, "malformed-request-dispatched", dict(sid=sid, hs=[(k.decode("latin1"), v.decode("latin1")) for k, v in hs],
                                                                  trailers=[(k.decode("latin1"), v.decode("latin1")) for k, v in tr], body=n), known_class=cls)
         if not ok and sid not in dispatched and refused.get(sid) not in (PROTOCOL, None):
